@@ -568,10 +568,37 @@ fn preset(i: usize) -> PaZipCompressorConfig {
 
 /// dict_kind 0: DictionaryBuilder::default().build(train); 1: small builder config; 2: SuffixArrayDictionary::new(train) (whole text)
 fn pazip_case(cx: &mut Ctx, pi: usize, dict_kind: u64, payloads: &[Vec<u8>], train: &[u8]) {
+    let cj = json!({"cell": "pazip", "preset": pi, "dict_kind": dict_kind, "payloads": payloads, "train": train});
+    let key = format!("pz {} {} {:?} {:?}", pi, dict_kind, payloads, train);
+    pazip_case_inner(cx, pi, dict_kind, payloads, train, cj, key)
+}
+/// A payload of n bytes described by (n, seed) instead of spelled out (the case JSON of a 1 MiB payload would be megabytes):
+/// pieces of the training text, runs, and random bytes.  Inputs of 1 MiB and more take PaZipCompressor's block-wise path
+/// (64 KiB blocks compressed one after the other into one output).
+fn big_payload(n: usize, seed: u64) -> Vec<u8> {
+    let mut r = Rng::new(seed ^ 0xB16);
+    let mut x = Vec::with_capacity(n + 64);
+    while x.len() < n {
+        match r.below(4) {
+            0 => { let a = r.below(TEXT.len() as u64 - 8) as usize; let l = r.range(4, (TEXT.len() - a).min(60) as u64) as usize; x.extend_from_slice(&TEXT[a..a + l]); }
+            1 => { let b = r.below(256) as u8; let l = r.range(1, 40) as usize; x.extend(std::iter::repeat(b).take(l)); }
+            2 => { let l = r.range(1, 24) as usize; x.extend(r.bytes(l)); }
+            _ => x.extend_from_slice(b"the quick brown fox "),
+        }
+    }
+    x.truncate(n);
+    x
+}
+fn pazip_big_case(cx: &mut Ctx, pi: usize, n: usize, seed: u64) {
+    let x = big_payload(n, seed);
+    let cj = json!({"cell": "pazip_big", "preset": pi, "n": n, "seed": seed});
+    cx.sum.dist("pazip_payload_ge_1MiB");
+    pazip_case_inner(cx, pi, 2, &[x], TEXT, cj, format!("pzbig {} {} {}", pi, n, seed))
+}
+fn pazip_case_inner(cx: &mut Ctx, pi: usize, dict_kind: u64, payloads: &[Vec<u8>], train: &[u8], cj: Value, key: String) {
     let cell = format!("pazip/compressor/{}", PRESETS[pi % 6]);
     cx.sum.cell_status(&cell, "S-only");
-    let cj = json!({"cell": "pazip", "preset": pi, "dict_kind": dict_kind, "payloads": payloads, "train": train});
-    cx.sum.eval(&cell, &format!("pz {} {} {:?} {:?}", pi, dict_kind, payloads, train), payloads.iter().any(|p| p.len() >= 2));
+    cx.sum.eval(&cell, &key, payloads.iter().any(|p| p.len() >= 2));
     let class = if pi % 6 == 5 && payloads.iter().any(|p| !p.is_empty()) { Some("pazip_reference_no_decoder") } else { None };
     let stats = std::cell::Cell::new((0u32, 0u32));
     let r = guarded(|| {
@@ -795,6 +822,7 @@ fn run_one(cx: &mut Ctx, c: &Value) {
             let ps: Vec<Vec<u8>> = c["payloads"].as_array().map(|a| a.iter().map(bytes_of).collect()).unwrap_or_default();
             pazip_case(cx, c["preset"].as_u64().unwrap_or(0) as usize, c["dict_kind"].as_u64().unwrap_or(0), &ps, &bytes_of(&c["train"]))
         }
+        "pazip_big" => pazip_big_case(cx, c["preset"].as_u64().unwrap_or(0) as usize, c["n"].as_u64().unwrap_or(0) as usize, c["seed"].as_u64().unwrap_or(0)),
         "simd_lz77/inherent" => simd_lz77_case(cx, &bytes_of(&c["data"])),
         "pazip/legacy_decode_raw" => legacy_raw(cx, &bytes_of(&c["data"])),
         "pazip/legacy_records" => {
@@ -1007,6 +1035,11 @@ pub fn run(args: &Args) {
         let dk = r.below(3);
         cx.rng = r;
         pazip_case(&mut cx, k % 6, dk, &ps, &t);
+    }
+    // payloads at and above 1 MiB: the block-wise path of PaZipCompressor::compress (multithreading presets), and the plain path
+    for (k, &n) in [(1usize << 20) - 1, 1 << 20, (1 << 20) + 1, (1 << 21) + 5].iter().enumerate() {
+        if !th && k == 3 { continue; }
+        pazip_big_case(&mut cx, [0usize, 2, 0, 4][k], n, 7 + k as u64);
     }
     // dictionaries larger than 64 KiB: a phrase that occurs only at dictionary offset 65534..65537 (the Global record
     // stores offset and length in 16 bits each; a match that does not fit must not be chosen, or must be written faithfully)
